@@ -310,6 +310,12 @@ func (c *Cluster) forge(victim, byz *SimNode, r *RNG, opName string) *forgedEven
 		}
 		f.ev = mk(byz, 0, "", other)
 		f.why = "claims to be a first event although the creator already has events"
+	case "no-self-parent-huge-index":
+		if spIdx < 0 {
+			return nil
+		}
+		f.ev = mk(byz, 1<<30+r.Intn(1000), "", other)
+		f.why = "no self-parent although the creator already has events, with an index far beyond anything the creator will ever reach"
 	case "foreign-creator":
 		stranger := &SimNode{key: deriveKey(c.seed, 800+r.Intn(50))}
 		stranger.pubB = keys.FromPublicKey(&stranger.key.PublicKey)
@@ -364,7 +370,7 @@ func (c *Cluster) forge(victim, byz *SimNode, r *RNG, opName string) *forgedEven
 var forgeOps = []string{"valid", "valid-no-other-parent", "bad-signature", "signed-by-other-key", "index-same-as-parent",
 	"index-skipped", "index-lower", "index-negative", "first-event-nonzero-index", "equivocation", "unknown-self-parent",
 	"unknown-other-parent", "no-self-parent-but-has-events", "foreign-creator", "impersonate-honest", "itx-signed-by-other",
-	"itx-self-signed-valid"}
+	"itx-self-signed-valid", "no-self-parent-huge-index"}
 
 // listingInvariant: per creator the participant listing is gap-free, each
 // listed event's index equals its height, no two events at one height.
